@@ -140,7 +140,7 @@ func ShrinkScenario(s *Scenario) []*Scenario {
 			n.Config, n.Mandatory, n.Default, n.Units, n.Desc, n.When, n.Ext, n.Min, n.Max, n.OrderedBy = "", "", nil, "", "", "", "", "", "", ""
 			n.Typedefs, n.Groupings = nil, nil
 			if n.Type != nil {
-				n.Type = &Type{Ref: Ref{"", "string"}}
+				n.Type = &Type{Ref: Ref{Mod: "", Name: "string"}}
 			}
 		})
 	}
